@@ -375,8 +375,12 @@ class Reconfigure:
 
     def _check(self):
         """Raise if reconfiguration would destroy local changes."""
-        if self._destroy_tree and self.tree.has_changes():
-            raise errors.UncommittedChanges(self.tree)
+        if self._destroy_tree:
+            if self.tree.has_changes():
+                raise errors.UncommittedChanges(self.tree)
+            if self.tree.get_shelf_manager().last_shelf() is not None:
+                # As for remove-tree: the shelf lives in the working tree.
+                raise errors.ShelvedChanges(self.tree)
         if self._create_reference and self.local_branch is not None:
             reference_branch = branch.Branch.open(self._select_bind_location())
             if reference_branch.last_revision() != self.local_branch.last_revision():
